@@ -27,7 +27,7 @@ func scenC19(r *Run) {
 	t := r.W
 	judged := r.P("judged", 0) == 1
 	r.S.PanicProp = "C19"
-	tn := buildTown(r, TownOpts{RichLinks: false, Paged: false, MaxPosts: 10})
+	tn := buildTown(r, TownOpts{RichLinks: true, Paged: false, MaxPosts: 10})
 	f := tn.f
 	// a long outbox of remote items for the preload observation
 	long := fmt.Sprintf("https://h1.example/a/long")
@@ -107,7 +107,7 @@ func scenC19(r *Run) {
 			keys += ":feed " + fn + "\rjj "
 		}
 	}
-	keys += ":open " + tn.Posts[t.Draw(len(tn.Posts))].ID + "\rjko1\r2.c"
+	keys += ":open " + tn.Posts[t.Draw(len(tn.Posts))].ID + "\rjko1\r2\r3\r4\r2.c"
 	for i := 0; i < len(keys); i++ {
 		u.Key(keys[i])
 		if !r.Settle(60000) {
